@@ -49,8 +49,10 @@ def setup(ctx):
         cls._interp = wrapped
 
 
-def axis(rng, n, lo, hi, zero_first=False):
+def axis(rng, n, lo, hi, zero_first=False, min_step=None):
     pts = set()
+    min_step = max(min_step or 0.0, 1e-3 * hi)
+    n = max(2 if n > 1 else 1, min(n, int((hi - lo) / (2.5 * min_step)) + 1))
     while len(pts) < n:
         if rng.random() < 0.5:
             pts.add(G.sig(math.exp(rng.uniform(math.log(lo), math.log(hi))), 5))
@@ -58,11 +60,11 @@ def axis(rng, n, lo, hi, zero_first=False):
             pts.add(G.sig(rng.uniform(lo, hi), 5))
         # enforce minimal step: 1e-3 of the largest coordinate
         s = sorted(pts)
-        ok = all(b - a >= 1e-3 * hi for a, b in zip(s, s[1:]))
+        ok = all(b - a >= min_step for a, b in zip(s, s[1:]))
         if not ok:
             pts.discard(s[-1] if rng.random() < 0.5 else s[0])
     s = sorted(pts)
-    if zero_first:
+    if zero_first and len(s) > 1 and s[1] >= min_step:
         s[0] = 0.0
     return s
 
@@ -72,12 +74,15 @@ def gen(rng, i, tier):
     one_d = rng.random() < 0.3
     nio = rng.randint(1, 8) if one_d else rng.randint(2, 8)
     imax = G.lu(rng, 0.01, 10.0)
-    ios = axis(rng, nio, imax * rng.choice([1e-3, 1e-2, 0.1]), imax, zero_first=rng.random() < 0.3 and nio > 1)
     if one_d:
         vis = [G.lu(rng, 1.0, 48.0)]
+        ios = axis(rng, nio, imax * rng.choice([1e-3, 1e-2, 0.1]), imax, zero_first=rng.random() < 0.3 and nio > 1)
     else:
+        # the property's class of well-conditioned tables: every axis step >= 1e-4 of the LARGEST coordinate
         vmax = G.lu(rng, 3.0, 60.0)
         vis = axis(rng, rng.randint(2, 6), vmax * rng.choice([0.05, 0.2, 0.5]), vmax)
+        imax = max(imax, 5e-3 * nio * vmax)
+        ios = axis(rng, nio, imax * rng.choice([1e-2, 0.1, 0.3]), imax, zero_first=rng.random() < 0.3, min_step=5e-4 * max(vmax, imax))
     if z == "eff":
         val = lambda: G.sig(rng.uniform(0.3, 1.0), 4)
     elif z == "vdrop":
